@@ -194,7 +194,7 @@ STD_DISCR = {
 }
 
 PASS_CALLS = re.compile(
-    r"(Try>::branch$|::unwrap$|::expect$|Deref>::deref$|DerefMut>::deref_mut$|From<.*>>::from$|Into<.*>>::into$|"
+    r"(Try>::branch$|::unwrap$|::expect$|Deref>::deref$|DerefMut>::deref_mut$|From<.*>>::from$|Into<.*>>::into$|TryInto<.*>>::try_into$|TryFrom<.*>>::try_from$|"
     r"::as_ref$|::as_mut$|::clone$|::dupe$|::to_owned$|::map_err$|FromResidual|::unwrap_unchecked$|::ok$|"
     r"::copied$|::cloned$|::borrow$|::borrow_mut$|::into_inner$|::as_deref$|::as_deref_mut$|::ok_or$|::ok_or_else$)")
 
@@ -820,3 +820,70 @@ def short_fn(qpath):
     s = strip(s)
     parts = s.split("::")
     return "::".join(parts[-2:]) if len(parts) > 2 else s
+
+
+# ------------------------------------------------------------------------------------------
+# K9 table extraction from a `match` on an enum
+
+def match_arms(F, fn, ty_regex, start=0):
+    """Find the (first, in CFG order from `start`) switch on the discriminant of a place whose type matches ty_regex.
+    Returns (bb, {variant_name: target_bb}, otherwise_bb, all_variant_names) or None."""
+    order = []
+    seen = set()
+    st = [start]
+    while st:
+        b = st.pop(0)
+        if b in seen or b in fn.cleanup:
+            continue
+        seen.add(b)
+        order.append(b)
+        st.extend(fn.succs(b))
+    r = re.compile(ty_regex)
+    for b in order:
+        info = switch_info(fn, b)
+        if not info or info["kind"] != "enum" or not r.search(info["ty"]):
+            continue
+        names = enum_variant_names(F, info["ty"])
+        arms = {}
+        for v, t in info["targets"].items():
+            arms[names.get(v, "#%d" % v)] = t
+        return b, arms, info["otherwise"], set(names.values())
+    return None
+
+
+def arm_constant(fn, block, stop_blocks=()):
+    """If every path from `block` to return is call-free and assigns only one constant to _0, return that constant
+    text; else None."""
+    reach = fn.reach([block], cut_blocks=set(stop_blocks))
+    consts = set()
+    for b in reach:
+        if fn.call_at(b) is not None:
+            return None
+    for st in fn.stmts:
+        if st.bb in reach and st.lhs == "_0":
+            if st.kind == "use" and st.ops[0].startswith("const"):
+                consts.add(st.ops[0])
+            elif st.kind.startswith("agg "):
+                consts.add(st.kind + " " + st.text())
+            else:
+                return None
+    if len(consts) == 1:
+        return consts.pop()
+    return None
+
+
+def enum_values(F, fn, operand, adt):
+    """possible values of a fieldless-enum operand: variant names, 'param:<local>' or 'other'"""
+    names = {d: n for n, d, i in adt.variants}
+    out = set()
+    for o in origins(fn, operand, pass_calls=None):
+        if o[0] == "agg" and (adt.path + "::") in o[1].kind:
+            out.add(o[1].kind.rsplit("::", 1)[-1])
+        elif o[0] == "const":
+            m = re.search(r"Scalar\(0x0*([0-9a-f]+)\)", o[1])
+            out.add(names.get(int(m.group(1), 16), "other") if m else "other")
+        elif o[0] == "param":
+            out.add("param:" + o[1])
+        else:
+            out.add("other")
+    return out
